@@ -426,8 +426,12 @@ impl ImplicitConversion {
 
         // If the type was an untyped literal int then instead convert the literal type
         // This simplifies the expressions we generate so we don't have to clean it up later
-        if let Expression::Literal(Constant::IntLiteral(v)) = expr {
-            let target_type_unmodified = module.type_registry.remove_modifier(target_type.0);
+        // A literal has an unmodified type so this only applies when the target is unmodified
+        let target_type_unmodified = module.type_registry.remove_modifier(target_type.0);
+        let target_is_unmodified = target_type_unmodified == target_type.0;
+        if let Expression::Literal(Constant::IntLiteral(v)) = expr
+            && target_is_unmodified
+        {
             match module.type_registry.get_type_layer(target_type_unmodified) {
                 TypeLayer::Scalar(ScalarType::Bool) => {
                     return Expression::Literal(Constant::Bool(v != 0));
@@ -452,8 +456,9 @@ impl ImplicitConversion {
         }
 
         // And the same for float literals
-        if let Expression::Literal(Constant::FloatLiteral(v)) = expr {
-            let target_type_unmodified = module.type_registry.remove_modifier(target_type.0);
+        if let Expression::Literal(Constant::FloatLiteral(v)) = expr
+            && target_is_unmodified
+        {
             match module.type_registry.get_type_layer(target_type_unmodified) {
                 TypeLayer::Scalar(ScalarType::Bool) => {
                     return Expression::Literal(Constant::Bool(v != 0.0));
